@@ -1,6 +1,6 @@
 (** C16 - Default-action emulation matches what the kernel would have done. *)
 From Coq Require Import ZArith List String.
-From SH Require Import gen.Extracted_details gen.Extracted_platform details.Kernel details.Model details.Emulate.
+From SH Require Import gen.Extracted_details gen.Extracted_platform details.Kernel details.Model details.Emulate details.Skeleton.
 Open Scope Z_scope.
 
 Theorem C16_matches_kernel :
